@@ -679,7 +679,8 @@ def run_cli(wd: Path, pattern: str, sources: list[str], mods_pm=None):
             bad.append(line)
             continue
         res[int(m.group(1))].append((int(m.group(2)), int(m.group(3)), m.group(4)))
-    texts = [(d / f"m{i:04d}.py").read_text(encoding="utf-8") for i in range(len(sources))]
+    # main() reads the files with newline="" (fix 170ab4f): the text is the file content, line ends untouched
+    texts = [(d / f"m{i:04d}.py").read_bytes().decode("utf-8") for i in range(len(sources))]
     if inproc_differs:
         bad.append(f"main() with sys.argv (in process) returned {rc_inproc!r} / printed {len(buf.getvalue())} characters; "
                    f"the subprocess returned {r.returncode} / printed {len(out)} characters")
@@ -696,13 +697,13 @@ def run_cli_replace(wd: Path, mods, pattern: str, repl: str, sources: list[str])
     expected = {}
     for i, s in enumerate(sources):
         f = d / f"m{i:04d}.py"
-        text = f.read_text(encoding="utf-8")
+        text = f.read_bytes().decode("utf-8")       # newline="" on both sides since fix 170ab4f
         try:
             with common.quiet():
                 new = mods["pattern_matching"].sub(pattern, repl, text)
         except Exception:  # noqa
             new = None
-        expected[i] = None if new is None else (s.encode("utf-8") if new == text else new.encode("utf-8"))
+        expected[i] = None if new is None else new.encode("utf-8")
     env = dict(os.environ, PYTHONPATH=str(common.REPO), PYTHONIOENCODING="utf-8", PYTHONUTF8="1", PYTHONHASHSEED="0")
     r = subprocess.run([sys.executable, "-m", "pyrefact.pattern_matching", "replace", pattern, repl, str(d)],
                        capture_output=True, env=env, timeout=300)
@@ -1090,10 +1091,10 @@ def _check(run: common.Run):
             o = dict(o, cli=printed)
             cli_cases.append(o)
     # the `replace` sub-command (thin glue around sub(), C14's subject): files end up as sub() says
-    rep_problem = run_cli_replace(wd, mods, "{{f}}({{x}})", "{{f}}({{x}}, 1)", api_srcs[:40])
+    rep_problem = run_cli_replace(wd, mods, "{{f}}({{x}})", "{{f}}({{x}}, 1)", api_srcs[:40] + api_family()[-6:])
     if rep_problem:
         cli_problems.append(rep_problem)
-    hist["cli_replace_files"] = 40
+    hist["cli_replace_files"] = 46
     for k in range(0, len(cli_cases), 250):
         shard = cli_cases[k:k + 250]
         add_file(f"cli_{k // 250}.v", HEADER + "Definition cases : list api_case := [\n "
